@@ -278,6 +278,19 @@ class Check:
             self.coq_log = log[-4000:]
         return ok
 
+    def coqchk(self, prop_files, timeout=2400):
+        """Independent re-check of the compiled property modules and everything they depend on."""
+        mods = ["GC." + os.path.splitext(f)[0] for f in prop_files]
+        with Lock("coq"):
+            rc, out = sh(["coqchk", "-silent", "-o", "-Q", os.path.join(COQ, "theories"), "GC", "-Q", os.path.join(COQ, "gen"), "GCgen"] + mods,
+                         cwd=COQ, timeout=timeout)
+        summary = out[out.find("CONTEXT SUMMARY"):] if "CONTEXT SUMMARY" in out else out[-800:]
+        self.coverage["coqchk"] = {"modules": mods, "exit": rc, "summary": " ".join(summary.split())[:1200]}
+        if rc != 0:
+            self.broken.append("coqchk failed on %s: %s" % (mods, out[-400:]))
+        elif "Axioms: <none>" not in " ".join(summary.split()):
+            self.coverage["coqchk"]["note"] = "axioms reported by coqchk are listed in 'summary'"
+
     def harness(self, sub, timeout=1500, extra_args=None):
         out_dir = self.dir
         for p in glob.glob(os.path.join(out_dir, "cases_*.v")) + glob.glob(os.path.join(out_dir, "meta.json")):
@@ -413,7 +426,9 @@ def standard(prop, tier, sub, files, timeout=1500, assume=None, trusted=None, co
     if coverage:
         c.coverage.update(coverage)
     c.build()
-    c.prove(files)
+    ok = c.prove(files)
+    if ok and tier == "thorough":
+        c.coqchk([f for f in files if f.startswith("Properties")])
     c.harness(sub, timeout=timeout)
     c.correspond()
     c.finish()
